@@ -190,15 +190,17 @@ package engine
 //@   requires typing: compileEnvOK()
 //@   unfold compileEnvOK() == compileEnvFacts()
 //@   decreases 8 * rvSize(v) + 7
-//@   assigns c.dots, elems(c.dots)
+//@   assigns c.dots, elems(c.dots), c.strayDots, elems(c.strayDots)
 //@   ensures m != nil
 //@   ensures c.dots.arr == old(c.dots.arr) || fresh(c.dots.arr)
+//@   ensures [C07,C08] recorded-stray-elisions-are-never-dropped: (c.strayDots.arr == old(c.strayDots.arr) || fresh(c.strayDots.arr)) && len(c.strayDots) >= old(len(c.strayDots))
 //@   ensures [C03] compiling-is-a-function-of-the-pattern: m == cR(c.fset, c.meta, c.dotAssoc, v, c.patchStart, c.patchEnd)
 //@   unfold-post cR(c.fset, c.meta, c.dotAssoc, v, c.patchStart, c.patchEnd) == m
 //@   ensures [C03] absent-pointers-stay-absent: kind(v) == 22 && risnil(v) ==> m == boxed(mk("github.com/uber-go/gopatch/internal/engine.ZeroReplacer", rtype(v)))
 //@   ensures [C03,C17] pattern-comments-are-not-generated: !(kind(v) == 22 && risnil(v)) && rtype(v) == gt("CommentGroupPtrType") ==> m == boxed(mk("github.com/uber-go/gopatch/internal/engine.ValueReplacer", rvOf(boxed(as("*go/ast.CommentGroup", 0)))))
 //@   ensures [C03] object-links-are-not-generated: !(kind(v) == 22 && risnil(v)) && rtype(v) == gt("ObjectPtrType") ==> m == boxed(mk("github.com/uber-go/gopatch/internal/engine.ValueReplacer", rvOf(boxed(as("*go/ast.Object", 0)))))
 //@   ensures [C03] positions-come-from-the-match: rtype(v) == gt("PosType") && kind(v) != 22 ==> m == boxed(mk("github.com/uber-go/gopatch/internal/engine.PosReplacer", c.fset, rvIface(v).val))
+//@   ensures [C07,C08] an-elision-outside-a-list-is-recorded-for-rejection: !(kind(v) == 22 && risnil(v)) && rtype(v) == global("github.com/uber-go/gopatch/internal/engine.dotsPtrType") ==> len(c.strayDots) == old(len(c.strayDots)) + 1 && c.strayDots[old(len(c.strayDots))] == as("*github.com/uber-go/gopatch/internal/pgo.Dots", rvIface(v).val).Dots && m == boxed(mk("github.com/uber-go/gopatch/internal/engine.ZeroReplacer", rtype(v)))
 //@   ensures-assumed c.meta == nil ==> m == compiledR(c.fset, v, c.patchStart, c.patchEnd)
 
 // `for ... { body }` (C04): matches any for / range statement whose body matches the body pattern; the
@@ -273,8 +275,9 @@ package engine
 //@   requires typing: compileEnvOK()
 //@   requires imp != nil && imp.Path != nil
 //@   requires typing: unquoteOK(imp.Path.Value)
-//@   assigns c.dots, elems(c.dots)
+//@   assigns c.dots, elems(c.dots), c.strayDots, elems(c.strayDots)
 //@   ensures c.dots.arr == old(c.dots.arr) || fresh(c.dots.arr)
+//@   ensures [C07,C08] recorded-stray-elisions-are-never-dropped: (c.strayDots.arr == old(c.strayDots.arr) || fresh(c.strayDots.arr)) && len(c.strayDots) >= old(len(c.strayDots))
 //@   ensures [C11] named-by-a-metavariable-only-if-declared-as-identifier: m.NameIsMetavar == (imp.Name != nil && lookupVar(c.meta, imp.Name.Name) == const("github.com/uber-go/gopatch/internal/engine.IdentMetavarType"))
 //@   ensures [C11] the-name-as-written: (imp.Name == nil ==> m.Name == nil && m.NameS == "") && (imp.Name != nil ==> m.NameS == imp.Name.Name && m.Name != nil)
 //@   ensures [C11] the-path-as-written: m.Path == unquoted(imp.Path.Value) && m.Fset == c.fset
@@ -296,8 +299,9 @@ package engine
 //@ func (c *replacerCompiler) compilePGoStmtList(slist) (m)
 //@   requires typing: compileEnvOK()
 //@   requires slist != nil
-//@   assigns c.dots, elems(c.dots)
+//@   assigns c.dots, elems(c.dots), c.strayDots, elems(c.strayDots)
 //@   ensures c.dots.arr == old(c.dots.arr) || fresh(c.dots.arr)
+//@   ensures [C07,C08] recorded-stray-elisions-are-never-dropped: (c.strayDots.arr == old(c.strayDots.arr) || fresh(c.strayDots.arr)) && len(c.strayDots) >= old(len(c.strayDots))
 //@   at call (*engine.replacerCompiler).compile assert [C03,C04] framed-by-an-elision-at-each-end: arg1 == rvOf(boxed(list)) && (len(slist.List) == 0 ==> len(list) == 0) && (len(slist.List) > 0 ==> len(list) == len(slist.List) + 2 && isDotsStmtAt(list[0], c.patchStart) && isDotsStmtAt(list[len(slist.List) + 1], c.patchEnd) && forall j int {list[j + 1]} :: 0 <= j && j < len(slist.List) ==> list[j + 1] == slist.List[j])
 //@   ensures [C03] m.typ == dyn("github.com/uber-go/gopatch/internal/engine.stmtSliceContainerReplacer") && unbox(m, "S_engine_stmtSliceContainerReplacer").Stmts != nil
 
@@ -486,6 +490,7 @@ package engine
 //@   ensures [C02] only-the-two-kinds: forall k string {has(meta.Vars, k)} :: has(meta.Vars, k) ==> (meta.Vars[k] == 1 || meta.Vars[k] == 2)
 //@   ensures [C02] underscore-declares-nothing: !has(meta.Vars, "_")
 //@   ensures [C19] rejected-declarations-are-reported: len(c.errors) == old(len(c.errors)) + (metaErrors - old(metaErrors))
+//@   ensures diagnostics-only-accumulate: metaErrors >= old(metaErrors)
 //@   loop 0
 //@     invariant len(c.errors) == old(len(c.errors)) + (metaErrors - old(metaErrors)) && metaErrors >= old(metaErrors)
 //@     invariant c.errors.arr == old(c.errors.arr) || fresh(c.errors.arr)
@@ -649,9 +654,10 @@ package engine
 //@   requires typing: compileEnvOK()
 //@   unfold compileEnvOK() == compileEnvFacts()
 //@   decreases 8 * rvSize(v) + 5
-//@   assigns c.dots, elems(c.dots)
+//@   assigns c.dots, elems(c.dots), c.strayDots, elems(c.strayDots)
 //@   ensures m != nil
 //@   ensures c.dots.arr == old(c.dots.arr) || fresh(c.dots.arr)
+//@   ensures [C07,C08] recorded-stray-elisions-are-never-dropped: (c.strayDots.arr == old(c.strayDots.arr) || fresh(c.strayDots.arr)) && len(c.strayDots) >= old(len(c.strayDots))
 //@   ensures [C03] scalars-are-generated-verbatim: kind(v) != 22 && kind(v) != 23 && kind(v) != 25 && kind(v) != 20 ==> m == boxed(mk("github.com/uber-go/gopatch/internal/engine.ValueReplacer", v))
 //@   ensures [C03] pointers: kind(v) == 22 ==> m == ite(risnil(v), boxed(mk("github.com/uber-go/gopatch/internal/engine.ZeroReplacer", rtype(v))), boxed(mk("github.com/uber-go/gopatch/internal/engine.PtrReplacer", cR(c.fset, c.meta, c.dotAssoc, relem(v), c.patchStart, c.patchEnd), rtype(v))))
 //@   ensures [C03] interfaces: kind(v) == 20 ==> m == ite(risnil(v), boxed(mk("github.com/uber-go/gopatch/internal/engine.ZeroReplacer", rtype(v))), boxed(mk("github.com/uber-go/gopatch/internal/engine.InterfaceReplacer", cR(c.fset, c.meta, c.dotAssoc, relem(v), c.patchStart, c.patchEnd), rtype(v))))
@@ -663,9 +669,10 @@ package engine
 //@   requires typing: compileEnvOK()
 //@   unfold compileEnvOK() == compileEnvFacts()
 //@   decreases 8 * rvSize(v) + 4
-//@   assigns c.dots, elems(c.dots)
+//@   assigns c.dots, elems(c.dots), c.strayDots, elems(c.strayDots)
 //@   ensures m != nil
 //@   ensures c.dots.arr == old(c.dots.arr) || fresh(c.dots.arr)
+//@   ensures [C07,C08] recorded-stray-elisions-are-never-dropped: (c.strayDots.arr == old(c.strayDots.arr) || fresh(c.strayDots.arr)) && len(c.strayDots) >= old(len(c.strayDots))
 //@   ensures [C03] absent-pointer: risnil(v) ==> m == boxed(mk("github.com/uber-go/gopatch/internal/engine.ZeroReplacer", rtype(v)))
 //@   ensures [C03] pointer-to-the-compiled-target: !risnil(v) ==> m == boxed(mk("github.com/uber-go/gopatch/internal/engine.PtrReplacer", cR(c.fset, c.meta, c.dotAssoc, relem(v), c.patchStart, c.patchEnd), rtype(v)))
 
@@ -673,9 +680,10 @@ package engine
 //@   requires typing: compileEnvOK()
 //@   unfold compileEnvOK() == compileEnvFacts()
 //@   decreases 8 * rvSize(v) + 4
-//@   assigns c.dots, elems(c.dots)
+//@   assigns c.dots, elems(c.dots), c.strayDots, elems(c.strayDots)
 //@   ensures m != nil
 //@   ensures c.dots.arr == old(c.dots.arr) || fresh(c.dots.arr)
+//@   ensures [C07,C08] recorded-stray-elisions-are-never-dropped: (c.strayDots.arr == old(c.strayDots.arr) || fresh(c.strayDots.arr)) && len(c.strayDots) >= old(len(c.strayDots))
 //@   ensures [C03] absent-interface: risnil(v) ==> m == boxed(mk("github.com/uber-go/gopatch/internal/engine.ZeroReplacer", rtype(v)))
 //@   ensures [C03] interface-holding-the-compiled-value: !risnil(v) ==> m == boxed(mk("github.com/uber-go/gopatch/internal/engine.InterfaceReplacer", cR(c.fset, c.meta, c.dotAssoc, relem(v), c.patchStart, c.patchEnd), rtype(v)))
 
@@ -683,14 +691,16 @@ package engine
 //@   requires typing: compileEnvOK()
 //@   unfold compileEnvOK() == compileEnvFacts()
 //@   decreases 8 * rvSize(v) + 4
-//@   assigns c.dots, elems(c.dots)
+//@   assigns c.dots, elems(c.dots), c.strayDots, elems(c.strayDots)
 //@   ensures m != nil
 //@   ensures c.dots.arr == old(c.dots.arr) || fresh(c.dots.arr)
+//@   ensures [C07,C08] recorded-stray-elisions-are-never-dropped: (c.strayDots.arr == old(c.strayDots.arr) || fresh(c.strayDots.arr)) && len(c.strayDots) >= old(len(c.strayDots))
 //@   ensures [C03] absent-list: risnil(v) ==> m == boxed(mk("github.com/uber-go/gopatch/internal/engine.ZeroReplacer", rtype(v)))
 //@   ensures [C03] one-replacer-per-element-in-order: !risnil(v) ==> m.typ == dyn("github.com/uber-go/gopatch/internal/engine.SliceReplacer") && unbox(m, "S_engine_SliceReplacer").Type == rtype(v) && len(unbox(m, "S_engine_SliceReplacer").Items) == rlen(v) && forall j int {unbox(m, "S_engine_SliceReplacer").Items[j]} :: 0 <= j && j < rlen(v) ==> unbox(m, "S_engine_SliceReplacer").Items[j] == cR(c.fset, c.meta, c.dotAssoc, idx(v, j), c.patchStart, c.patchEnd)
 //@   loop 0
 //@     invariant 0 <= i && len(items) == rlen(v) && fresh(items.arr)
 //@     invariant c.dots.arr == old(c.dots.arr) || fresh(c.dots.arr)
+//@     invariant (c.strayDots.arr == old(c.strayDots.arr) || fresh(c.strayDots.arr)) && len(c.strayDots) >= old(len(c.strayDots))
 //@     invariant forall j int {items[j]} :: 0 <= j && j < i ==> items[j] == cR(c.fset, c.meta, c.dotAssoc, idx(v, j), c.patchStart, c.patchEnd)
 //@     decreases rlen(v) - i
 
@@ -698,13 +708,15 @@ package engine
 //@   requires typing: compileEnvOK()
 //@   unfold compileEnvOK() == compileEnvFacts()
 //@   decreases 8 * rvSize(v) + 4
-//@   assigns c.dots, elems(c.dots)
+//@   assigns c.dots, elems(c.dots), c.strayDots, elems(c.strayDots)
 //@   ensures m != nil
 //@   ensures c.dots.arr == old(c.dots.arr) || fresh(c.dots.arr)
+//@   ensures [C07,C08] recorded-stray-elisions-are-never-dropped: (c.strayDots.arr == old(c.strayDots.arr) || fresh(c.strayDots.arr)) && len(c.strayDots) >= old(len(c.strayDots))
 //@   ensures [C03] one-replacer-per-field-in-order: m.typ == dyn("github.com/uber-go/gopatch/internal/engine.StructReplacer") && unbox(m, "S_engine_StructReplacer").Type == rtype(v) && len(unbox(m, "S_engine_StructReplacer").Fields) == numfield(rtype(v)) && forall j int {unbox(m, "S_engine_StructReplacer").Fields[j]} :: 0 <= j && j < numfield(rtype(v)) ==> unbox(m, "S_engine_StructReplacer").Fields[j] == cR(c.fset, c.meta, c.dotAssoc, fld(v, j), c.patchStart, c.patchEnd)
 //@   loop 0
 //@     invariant 0 <= i && len(fields) == numfield(rtype(v)) && fresh(fields.arr)
 //@     invariant c.dots.arr == old(c.dots.arr) || fresh(c.dots.arr)
+//@     invariant (c.strayDots.arr == old(c.strayDots.arr) || fresh(c.strayDots.arr)) && len(c.strayDots) >= old(len(c.strayDots))
 //@     invariant forall j int {fields[j]} :: 0 <= j && j < i ==> fields[j] == cR(c.fset, c.meta, c.dotAssoc, fld(v, j), c.patchStart, c.patchEnd)
 //@     decreases numfield(rtype(v)) - i
 
@@ -715,9 +727,10 @@ package engine
 //@   unfold compileEnvOK() == compileEnvFacts()
 //@   requires typing: rvIface(v).typ == dyn("*go/ast.Ident") && rvIface(v).val != nil
 //@   decreases 8 * rvSize(v) + 6
-//@   assigns c.dots, elems(c.dots)
+//@   assigns c.dots, elems(c.dots), c.strayDots, elems(c.strayDots)
 //@   ensures m != nil
 //@   ensures c.dots.arr == old(c.dots.arr) || fresh(c.dots.arr)
+//@   ensures [C07,C08] recorded-stray-elisions-are-never-dropped: (c.strayDots.arr == old(c.strayDots.arr) || fresh(c.strayDots.arr)) && len(c.strayDots) >= old(len(c.strayDots))
 //@   ensures [C03] declared-metavariable: lookupVar(c.meta, as("*go/ast.Ident", rvIface(v).val).Name) != 0 ==> m == boxed(mk("github.com/uber-go/gopatch/internal/engine.MetavarReplacer", as("*go/ast.Ident", rvIface(v).val).Name))
 //@   at call (*engine.replacerCompiler).compileGeneric assert [C03] undeclared-names-are-generated-verbatim: lookupVar(c.meta, as("*go/ast.Ident", rvIface(v).val).Name) == 0 && arg1 == v
 
@@ -745,9 +758,10 @@ package engine
 //@   unfold compileEnvOK() == compileEnvFacts()
 //@   requires typing: isDots != nil
 //@   decreases 8 * rvSize(items) + 6
-//@   assigns c.dots, elems(c.dots)
+//@   assigns c.dots, elems(c.dots), c.strayDots, elems(c.strayDots)
 //@   ensures m != nil
 //@   ensures c.dots.arr == old(c.dots.arr) || fresh(c.dots.arr)
+//@   ensures [C07,C08] recorded-stray-elisions-are-never-dropped: (c.strayDots.arr == old(c.strayDots.arr) || fresh(c.strayDots.arr)) && len(c.strayDots) >= old(len(c.strayDots))
 //@   unfold dotsBefore(isDots, items, 0) == 0
 //@   ensures [C04] absent-list: risnil(items) ==> m == boxed(mk("github.com/uber-go/gopatch/internal/engine.ZeroReplacer", rtype(items)))
 //@   ensures [C04] without-elision-an-ordinary-list: !risnil(items) && dotsBefore(isDots, items, rlen(items)) == 0 ==> m.typ == dyn("github.com/uber-go/gopatch/internal/engine.SliceReplacer") && unbox(m, "S_engine_SliceReplacer").Type == rtype(items) && len(unbox(m, "S_engine_SliceReplacer").Items) == rlen(items) && forall j int {unbox(m, "S_engine_SliceReplacer").Items[j]} :: 0 <= j && j < rlen(items) ==> unbox(m, "S_engine_SliceReplacer").Items[j] == cR(c.fset, c.meta, c.dotAssoc, idx(items, j), c.patchStart, c.patchEnd)
@@ -756,6 +770,7 @@ package engine
 //@     unfold dotsBefore(isDots, items, i + 1) == dotsBefore(isDots, items, i) + ite(implements(rvIface(idx(items, i)), "go/ast.Node") && isDotsElem(isDots, rvIface(idx(items, i))), 1, 0)
 //@     invariant 0 <= i && i <= rlen(items)
 //@     invariant c.dots.arr == old(c.dots.arr) || fresh(c.dots.arr)
+//@     invariant (c.strayDots.arr == old(c.strayDots.arr) || fresh(c.strayDots.arr)) && len(c.strayDots) >= old(len(c.strayDots))
 //@     invariant sections.arr == 0 || fresh(sections.arr)
 //@     invariant current.arr == 0 || fresh(current.arr)
 //@     invariant dots.arr == 0 || fresh(dots.arr)
@@ -770,9 +785,10 @@ package engine
 //@   requires typing: rvIface(v).typ == dyn("*go/ast.ForStmt") && rvIface(v).val != nil
 //@   requires typing: rvSize(rvOf(boxed(as("*go/ast.ForStmt", rvIface(v).val).Body))) < rvSize(v)
 //@   decreases 8 * rvSize(v) + 6
-//@   assigns c.dots, elems(c.dots)
+//@   assigns c.dots, elems(c.dots), c.strayDots, elems(c.strayDots)
 //@   ensures m != nil
 //@   ensures c.dots.arr == old(c.dots.arr) || fresh(c.dots.arr)
+//@   ensures [C07,C08] recorded-stray-elisions-are-never-dropped: (c.strayDots.arr == old(c.strayDots.arr) || fresh(c.strayDots.arr)) && len(c.strayDots) >= old(len(c.strayDots))
 //@   ensures [C04] for-elision-replacer-holds-the-compiled-body: as("*go/ast.ForStmt", rvIface(v).val).Cond.typ == dyn("*github.com/uber-go/gopatch/internal/pgo.Dots") && as("*go/ast.ForStmt", rvIface(v).val).Init == nil && as("*go/ast.ForStmt", rvIface(v).val).Post == nil ==> m == boxed(mk("github.com/uber-go/gopatch/internal/engine.ForDotsReplacer", nodePos(as("*go/ast.ForStmt", rvIface(v).val).Cond), cR(c.fset, c.meta, c.dotAssoc, rvOf(boxed(as("*go/ast.ForStmt", rvIface(v).val).Body)), c.patchStart, c.patchEnd), c.dotAssoc))
 //@   at call (*engine.replacerCompiler).compileGeneric assert [C04] only-a-bare-elision-header-is-special: arg1 == v && (as("*go/ast.ForStmt", rvIface(v).val).Cond.typ != dyn("*github.com/uber-go/gopatch/internal/pgo.Dots") || as("*go/ast.ForStmt", rvIface(v).val).Init != nil || as("*go/ast.ForStmt", rvIface(v).val).Post != nil)
 //@   at call (*engine.replacerCompiler).compile assert [C04] the-for-elision-needs-a-bare-elision-header: as("*go/ast.ForStmt", rvIface(v).val).Cond.typ == dyn("*github.com/uber-go/gopatch/internal/pgo.Dots") && as("*go/ast.ForStmt", rvIface(v).val).Init == nil && as("*go/ast.ForStmt", rvIface(v).val).Post == nil
@@ -1006,6 +1022,11 @@ package engine
 //@   ensures [C09] a-compiled-change-can-match-and-replace: change != nil ==> change.matcher.NodeMatcher != nil && change.replacer.NodeReplacer != nil
 //@   ensures [C09,C13] name-and-description-are-carried-along: change != nil ==> change.Name == achange.Name && change.Comments == achange.Comments
 //@   requires typing: forall i int {achange.Meta.Vars[i]} :: 0 <= i && i < len(achange.Meta.Vars) ==> achange.Meta.Vars[i] != nil && achange.Meta.Vars[i].Type != nil && forall j int {achange.Meta.Vars[i].Names[j]} :: 0 <= j && j < len(achange.Meta.Vars[i].Names) ==> achange.Meta.Vars[i].Names[j] != nil
+//@   ensures [C07,C08] an-elision-where-none-is-supported-rejects-the-change: len(ret("engine.newReplacerCompiler", 0).strayDots) > 0 ==> len(c.errors) > old(len(c.errors))
+//@   at call (*engine.compiler).errf where arg2 is "\"...\" is not supported here in the \"+\" section" assert [C19] the-stray-elision-is-reported-where-it-stands: arg1 == pos
+//@   loop 0
+//@     invariant c.errors.arr == old(c.errors.arr) || fresh(c.errors.arr)
+//@     invariant len(c.errors) >= old(len(c.errors)) + #k
 //@   assigns c.errors, elems(c.errors), metaErrors, allof("E.token_Pos"), allof("E.main_sourcePath"), allof("MH.Int.Int"), allof("MV.Int.Int"), allof("MH.Int.S_token_Position"), allof("MV.Int.S_token_Position")
 
 // Elision association (C04, C13): every '+' elision is associated with the nearest '-' elision at or
@@ -1073,8 +1094,9 @@ package engine
 //@   requires file != nil
 //@   requires typing: file.Node.val != nil && (file.Node.typ == dyn("*github.com/uber-go/gopatch/internal/pgo.Expr") || file.Node.typ == dyn("*github.com/uber-go/gopatch/internal/pgo.GenDecl") || file.Node.typ == dyn("*github.com/uber-go/gopatch/internal/pgo.FuncDecl") || file.Node.typ == dyn("*github.com/uber-go/gopatch/internal/pgo.StmtList"))
 //@   requires typing: importsTyped(file.Imports)
-//@   assigns c.dots, elems(c.dots)
+//@   assigns c.dots, elems(c.dots), c.strayDots, elems(c.strayDots)
 //@   ensures c.dots.arr == old(c.dots.arr) || fresh(c.dots.arr)
+//@   ensures [C07,C08] recorded-stray-elisions-are-never-dropped: (c.strayDots.arr == old(c.strayDots.arr) || fresh(c.strayDots.arr)) && len(c.strayDots) >= old(len(c.strayDots))
 //@   ensures [C11] the-package-as-written: m.Package == file.Package && m.Fset == c.fset
 //@   ensures [C11] one-import-per-plus-import: len(m.Imports.Imports) == len(file.Imports) && m.Imports.Fset == c.fset
 //@   ensures m.NodeReplacer != nil
@@ -1083,11 +1105,13 @@ package engine
 //@   requires typing: compileEnvOK()
 //@   requires typing: importsTyped(imps)
 //@   unfold importsTyped(imps) == forall k int {imps[k]} :: 0 <= k && k < len(imps) ==> imps[k] != nil && imps[k].Path != nil && unquoteOK(imps[k].Path.Value)
-//@   assigns c.dots, elems(c.dots)
+//@   assigns c.dots, elems(c.dots), c.strayDots, elems(c.strayDots)
 //@   ensures c.dots.arr == old(c.dots.arr) || fresh(c.dots.arr)
+//@   ensures [C07,C08] recorded-stray-elisions-are-never-dropped: (c.strayDots.arr == old(c.strayDots.arr) || fresh(c.strayDots.arr)) && len(c.strayDots) >= old(len(c.strayDots))
 //@   ensures [C11] one-replacer-per-import-in-order: len(rs.Imports) == len(imps) && rs.Fset == c.fset
 //@   at call (*engine.replacerCompiler).compileImport assert [C11] arg1 == imp
 //@   loop 0
 //@     invariant len(rs) == #k
 //@     invariant c.dots.arr == old(c.dots.arr) || fresh(c.dots.arr)
+//@     invariant (c.strayDots.arr == old(c.strayDots.arr) || fresh(c.strayDots.arr)) && len(c.strayDots) >= old(len(c.strayDots))
 //@     invariant rs.arr == 0 || fresh(rs.arr)
